@@ -59,13 +59,27 @@ def generate(tier, rng):
                "params": _params(rng, n0 + 3)}
 
 
+_FIXED_PATHS = ["*", "**", "../*", "n1", "/n0/*", "*/n2", "..", "n?", "**/n3", "**/..", "**/../*", "**/**", "*/**/..", "../**"]
+_COMPONENTS = ["*", "**", "..", ".", "n1", "n2", "n3", "n?", "n*", "", "N1"]
+
+
+def _rand_path(rng):
+    """a glob pattern composed of wildcard, recursive, upward and literal components (so that one node can be reached
+    along several routes: the de-duplication sites)"""
+    if rng.random() < 0.5:
+        return rng.choice(_FIXED_PATHS)
+    parts = [rng.choice(_COMPONENTS) for _ in range(rng.randrange(1, 5))]
+    if rng.random() < 0.2:
+        parts = ["", "n0"] + parts
+    return "/".join(parts)
+
+
 def _params(rng, n):
     labs = list(range(n))
     return {"stop": rng.sample(labs, rng.choice([0, 0, 1])), "filter_out": rng.sample(labs, rng.choice([0, 1, 2])),
             "maxlevel": rng.choice([None, None, 1, 2, 3]),
             "pairs": [[rng.randrange(n), rng.randrange(n)] for _ in range(4)],
-            "queries": [[rng.randrange(n), rng.choice(["*", "**", "../*", "n1", "/n0/*", "*/n2", "..", "n?", "**/n3"]), rng.random() < 0.5]
-                        for _ in range(4)],
+            "queries": [[rng.randrange(n), _rand_path(rng), rng.random() < 0.5] for _ in range(6)],
             "export_roots": [rng.randrange(n)]}
 
 
